@@ -266,6 +266,34 @@ Proof.
 Qed.
 Print Assumptions C18_trace_spec.
 
+(* join_spec for a LIST of meshes, m0 @ [m1, m2, ...]: with the regenerated offset every cell slot of the j-th mesh
+   keeps its vertex coordinates in the shared merged point table *)
+Theorem C18_matmul_list_spec :
+  forall (ps : list (list key)) (j : nat) (t : mat nat) (r c : nat),
+    j < length ps -> r < length t -> c < length (nth r t []) -> nth c (nth r t []) 0 < length (nth j ps []) ->
+    nth (nth c (nth r (gen_dedupe_t (concat ps)
+                         (map (map (fun v => v + gen_matmul_offset (map (@length key) ps) j)) t)) []) 0)
+        (gen_dedupe_p (concat ps)) []
+    = nth (nth c (nth r t []) 0) (nth j ps []) [].
+Proof.
+  intros ps j t r c. rewrite gen_matmul_offset_is_model. exact (matmul_cells ps j t r c).
+Qed.
+Print Assumptions C18_matmul_list_spec.
+
+(* to_meshtri(style='x'), centre nodes: numbered from the regenerated base, the centre row of the new connectivity points
+   at the appended centre points and every old vertex number at its old point — for point arrays of any length, in
+   particular with unused trailing points *)
+Theorem C18_to_meshtri_x_centres :
+  forall (P : Type) (d : P) (p centres : list P) (maxt1 nt nchild j k : nat),
+    length centres = nt -> j < nchild -> k < nt ->
+    nth (nth (k + j * nt) (centre_row (gen_quad_x_base (length p) maxt1) nt nchild) 0) (quad_x_points p centres) d
+    = nth k centres d /\
+    forall v, v < length p -> nth v (quad_x_points p centres) d = nth v p d.
+Proof.
+  intros P d p centres maxt1 nt nchild j k. rewrite gen_quad_x_base_is_npts. exact (quad_x_centres d p centres nt nchild j k).
+Qed.
+Print Assumptions C18_to_meshtri_x_centres.
+
 (* transform_spec: scaled multiplies every simplex determinant by the product of the factors, translated leaves it
    unchanged, mirrored (p - 2 (n.(p - p0)) n) multiplies it by 1 - 2 n.n, i.e. by -1 for the unit normal the code
    uses: measures scale by |prod factors| resp. are preserved.  All coordinates, all simplices. *)
